@@ -228,7 +228,7 @@ CLAIMS = {
              "instruction lines are executed by their type (./ mailbox, | program, forward), in line order, each at most once; "
              "file and program lines are refused when the .qmail is executable or +list was seen; nothing is executed after a "
              "program exited 99; every forward line that was reached is forwarded, once, after everything else; success only "
-             "at the end. qmesearch() (loop contract, ghost index; extensions <= 63 bytes): exact name first, then -default at "
+             "at the end. qmesearch() (loop contract, ghost index; extensions of any length): exact name first, then -default at "
              "every dash from the longest prefix down to the bare default, all built from the sanitised extension, none "
              "skipped, first existing wins, DEFAULT set; qmeexists(): only regular files not writable by others, "
              "temporary/permission errors defer, x bit = forward-only; checkhome(): writable or sticky home defers; "
